@@ -1469,6 +1469,19 @@ func (d *Data) moveElementInLabels(ctx *datastore.VersionedCtx, batch storage.Ba
 		return err
 	}
 	if oldLabel == newLabel {
+		if oldLabel == 0 {
+			return nil
+		}
+		// Same body, so no counts change, but its element list has to follow the move.
+		tk := NewLabelTKey(oldLabel)
+		elems, err := getElementsNR(ctx, tk)
+		if err != nil {
+			return fmt.Errorf("err getting elements for label %d: %v", oldLabel, err)
+		}
+		if _, changed := elems.delete(from); changed {
+			elems.add(ElementsNR{moved})
+			return putBatchElements(batch, tk, elems)
+		}
 		return nil
 	}
 
